@@ -394,6 +394,9 @@ func evaluate(sc *scen.Scenario, p Plan) error {
 	res, runErr := scen.RunChild(sc, 120*time.Second)
 	verdict, err := judge(sc, res, runErr)
 	cls, nt := classes(p)
+	if sc.Resume != nil && sc.Resume.NoHash {
+		cls = append(cls, "session:resumed-stored-without-key-id")
+	}
 	b, _ := json.Marshal(sc.RPC.Steps)
 	run.Case(verdict != "inconclusive" && nt, evid.Hash(b, p.Fresh), append(cls, "verdict:"+verdict)...)
 	run.Sample(map[string]any{"plan": p})
